@@ -9,6 +9,7 @@ import (
 	"golang.org/x/tools/go/analysis/passes/copylock"
 	"golang.org/x/tools/go/analysis/passes/inspect"
 	"golang.org/x/tools/go/ast/inspector"
+	"golang.org/x/tools/go/types/typeutil"
 	"sort"
 	"strings"
 
@@ -860,6 +861,32 @@ func (c *Ctx) c16StructCopies() {
 			atomicTypes[strings.Split(k, ".")[0]] = true
 		}
 	}
+	// … and every struct type of the package one of whose fields is handed to sync/atomic by address somewhere (a local counter
+	// type wrapping an int64: a Load method with a value receiver copies the struct with a plain read first)
+	for _, f := range c.Pkg.Syntax {
+		ast.Inspect(f, func(x ast.Node) bool {
+			call, ok := x.(*ast.CallExpr)
+			if !ok || len(call.Args) == 0 {
+				return true
+			}
+			cf, _ := typeutil.Callee(info, call).(*types.Func)
+			if cf == nil || cf.Pkg() == nil || cf.Pkg().Path() != "sync/atomic" {
+				return true
+			}
+			u, ok := ast.Unparen(call.Args[0]).(*ast.UnaryExpr)
+			if !ok || u.Op != token.AND {
+				return true
+			}
+			if sel, ok := ast.Unparen(u.X).(*ast.SelectorExpr); ok {
+				if sl := info.Selections[sel]; sl != nil && sl.Kind() == types.FieldVal {
+					if tn := namedTypeName(sl.Recv()); tn != "" {
+						atomicTypes[tn] = true
+					}
+				}
+			}
+			return true
+		})
+	}
 	isAtomicStruct := func(t types.Type) bool {
 		if t == nil {
 			return false
@@ -877,7 +904,7 @@ func (c *Ctx) c16StructCopies() {
 			n++
 			tn := namedTypeName(sig.Recv().Type())
 			r.Bad("R16.3", tn, "struct-copy-by-value-receiver:"+fn.Name(), c.Pos(fd.Pos()),
-				fmt.Sprintf("%s.%s has a value receiver: calling it through the stored *%s copies the whole struct, reading the ATOMIC field C without sync/atomic while PrepareRead updates it", tn, fn.Name(), tn), nil)
+				fmt.Sprintf("%s.%s has a value receiver: calling it through a *%s copies the whole struct, reading its atomically updated field (C of the entry types, the counter of a wrapper type) without sync/atomic while other goroutines update it", tn, fn.Name(), tn), nil)
 		}
 	})
 	// (b) explicit copies: *p in value context, assignment/argument of struct-typed expressions
